@@ -43,6 +43,12 @@ Theorem count_eq_pending : forall ops,
 Proof. exact count_eq_pending_proof. Qed.
 Print Assumptions count_eq_pending.
 
+(** a Select re-weights ties (it changes the state) but a repeated Select yields the same sequence *)
+Theorem select_idempotent : forall ops,
+  unique_sender_nonce ops -> select (run (ops ++ [Select])) = select (run ops).
+Proof. exact select_idempotent_proof. Qed.
+Print Assumptions select_idempotent.
+
 (** single-message consensus, scheduler, evm (bridge-chain) and valset transactions rank in that
     order, above every other transaction whose CheckTx priority is below MaxInt64 - 3; stated over
     the table translated from NewDefaultTxPriority *)
